@@ -231,7 +231,7 @@ def h_valid_via(d: Decl, props, entry):
         attrs = '#[kani::unwind(%d)]\n    ' % (n + 3)
         if d.family == 'int':
             pre += int_valid_range_code(d)
-        else:
+        elif any(n.startswith('sym_') for n in d.aux):
             pre += '        kani::assume(sym_lo_%s().is_finite() && sym_hi_%s().is_finite() && { let w: %s = kani::any(); !w.is_nan() && ref_%s::valid(&w) });\n' % (d.inner, d.inner, d.inner, d.id)
         get = ('        let bytes: [u8; %d] = kani::any();\n        let len: usize = kani::any();\n        kani::assume(len <= %d);\n' % (n, n) +
                '        let mut u = arbitrary::Unstructured::new(&bytes[..len]);\n'
@@ -1245,9 +1245,27 @@ def harnesses_for(prop, tier, seed):
                 hs.append(h_canonical_via(d, [prop], e))
         decls = decls + cd
     elif prop == 'C12':
+        from .kani_serde import serde_items_expanded
         decls = [d for d in float_decls(tier) if 'Ord' in d.derives]
         for d in decls:
             hs.append(h_float_ord(d, [prop]))
+        # no NaN / infinite value is obtainable through ANY safe entry point of an Eq/Ord float newtype
+        ed = []
+        der = ['Debug', 'Clone', 'Copy', 'PartialEq', 'Eq', 'PartialOrd', 'Ord', 'TryFrom', 'FromStr', 'Serialize', 'Deserialize', 'Arbitrary']
+        for t in FLOAT_TYPES:
+            bl, n1 = aux.sym_bound('lo', t)
+            bu, n2 = aux.sym_bound('hi', t)
+            ed.append(mk('c12e_%s_fin' % t, 'float', t, validators=[Validator('finite')], derives=der))
+            ed.append(mk('c12e_%s_ge_fin_lt' % t, 'float', t, validators=[Validator('greater_or_equal', bl), Validator('finite'), Validator('less', bu)], aux=[n1, n2], derives=der))
+            ed.append(mk('c12e_%s_gt_le_fin' % t, 'float', t, validators=[Validator('greater', bl), Validator('less_or_equal', bu), Validator('finite')], aux=[n1, n2], derives=der))
+        extra = serde_items_expanded() + parse_stub_items(sorted(FLOAT_TYPES))
+        for d in ed:
+            d.verus = False
+            for e in ('TryFrom', 'FromStr', 'Deserialize', 'Arbitrary'):
+                if e == 'Arbitrary' and d.id.endswith('_fin') is False and False:
+                    continue
+                hs.append(h_valid_via(d, [prop], e))
+        decls = decls + ed
     elif prop == 'C13':
         decls = float_decls(tier) + [d for d in int_kani_decls(tier) if 'closure' not in d.id]
         extra = HASHER
